@@ -89,6 +89,8 @@ def in_domain_bin(op, a, b, b_is_int_const):
     if op == "pow":
         if a > 0.125:
             return abs(b) < 6 and abs(b * math.log(a)) < 12
+        if a == 0:
+            return b_is_int_const and 1 <= b <= 4          # 0 ** k, k a whole constant >= 1: value 0, derivative k * 0 ** (k-1)
         return b_is_int_const and abs(a) > 1 / 64 and abs(b) <= 4
     if op == "log2":
         return a > 0.125 and abs(a - 1) > 0.125 and b > 0.125
@@ -208,7 +210,13 @@ def gen_program(rng, n_meas=None, n_ops=None, rational_only=False, allow_pairs=T
         v = dyadic(rng, -3, 8)
         if abs(v) < 0.25:
             v = 0.5 + abs(v)
+        if rng.random() < 0.07:
+            v = 0.0                        # a central value of exactly 0 (inside the domain of + - * neg and whole powers >= 1)
+        elif rng.random() < 0.1:
+            v = rng.choice([10.0, 1.0, 2.0, -1.0, 100.0, 10.0])     # numbers a shortcut might single out (bases, units)
         e = rng.choice([0.0, 0.125, 0.25, 0.5, 0.0625, 1.0, dyadic(rng, -4, 1) ** 2])
+        if rng.random() < 0.1:
+            e = rng.choice([2.0 ** -14, 2.0 ** -17, 3 * 2.0 ** -16, 2.0 ** -20])   # small against every absolute tolerance
         steps.append(["meas", v, abs(e)])
         vals.append(v)
         kinds.append("meas")
@@ -427,13 +435,42 @@ def with_value(model, i, new):
 
 
 def norm_change(ch):
-    """[i, new] (older replays: a value change) or [kind, i, new] with kind in {"value", "error"}"""
+    """[i, new] (older replays: a value change) or [kind, i, new] with kind in {"value", "error"}, or
+    ["override", k, new, uncertainty]"""
     return ["value"] + list(ch) if len(ch) == 2 else list(ch)
 
 
-def pick_change(model, rng, corr=()):
+def pick_override(model, rng, visible):
+    """["override", k, new]: the central value of the calculated quantity k is overridden (the library turns k into a
+    measurement with that value and its current uncertainty; later results that use k must see the new value)"""
+    used = {ref[1] for m in model if m[0] != "meas" for ref in m[2:] if ref[0] == "obj"}
+    cands = [k for k in visible if k in used and model[k][0] != "meas"]
+    if not cands:
+        return None
+    try:
+        vals = interp(model, len(model) - 1)
+    except (ValueError, ZeroDivisionError, OverflowError):
+        return None
+    for _ in range(8):
+        k = rng.choice(cands)
+        new = round(vals[k] * 8) / 8 + rng.choice([0.5, -0.5, 1.0, 0.25, -0.25, 2.0, -1.5, 0.0])
+        if new == vals[k]:
+            continue
+        cand = list(model)
+        cand[k] = ("meas", float(new), 0.0)
+        if domain_ok(cand):
+            return ["override", k, new]
+    return None
+
+
+def pick_change(model, rng, corr=(), visible=()):
     """a change of one measurement's central value (inside the domain) or of its uncertainty; uncertainty changes are
-    preferred for correlated measurements (the correlation set stays, the covariance term must follow the new uncertainty)"""
+    preferred for correlated measurements (the correlation set stays, the covariance term must follow the new uncertainty);
+    or the override of the central value of an intermediate calculated quantity"""
+    if visible and rng.random() < 0.25:
+        ch = pick_override(model, rng, list(visible))
+        if ch:
+            return ch
     correlated = sorted({i for c in corr for i in c[:2]})
     if correlated and rng.random() < 0.6 or rng.random() < 0.15:
         i = rng.choice(correlated or [k for k, m in enumerate(model) if m[0] == "meas"])
@@ -444,16 +481,27 @@ def pick_change(model, rng, corr=()):
 
 
 def apply_change_model(model, ch):
-    kind, i, new = norm_change(ch)
+    ch = norm_change(ch)
+    kind, i, new = ch[:3]
     out = list(model)
-    out[i] = ("meas", float(new), model[i][2]) if kind == "value" else ("meas", model[i][1], float(new))
+    if kind == "override":       # ch[3]: the uncertainty the quantity had when it was overridden (observed, see apply_change_impl)
+        out[i] = ("meas", float(new), float(ch[3]))
+    else:
+        out[i] = ("meas", float(new), model[i][2]) if kind == "value" else ("meas", model[i][1], float(new))
     return out
 
 
 def apply_change_impl(w, ch):
-    kind, i, new = norm_change(ch)
+    kind, i, new = norm_change(ch)[:3]
     if kind == "value":
         w.objs[i].value = new
+    elif kind == "override":
+        with warnings.catch_warnings():
+            warnings.simplefilter("ignore")
+            err = float(w.objs[i].error)
+            w.objs[i].value = new
+        ch[3:] = [err]
+        w.model[i] = ("meas", float(new), err)       # from now on object i is a measurement (same identity)
     else:
         w.objs[i].error = new
 
